@@ -1,6 +1,6 @@
 (* Correspondence cases for utils.py: inputs and the implementation's outputs; [ok] runs the
    model and compares. *)
-From DS Require Import Base.Prelude Base.Bits Model.Utils Model.UtilsFloat.
+From DS Require Import Base.Prelude Base.Bits Model.Utils Model.UtilsFloat Model.UtilsF32.
 From Flocq Require Import IEEE754.Binary IEEE754.Bits.
 
 Inductive ucase :=
@@ -17,7 +17,9 @@ Inductive ucase :=
 | CSign (z out : Z)
 | CRealToBytes64 (bits : Z) (le : bool) (out : list Z)      (* the double is given by its bits *)
 | CRealToBinary64 (bits : Z) (out : list bool)
-| CBytesToReal64 (l : list Z) (le : bool) (outbits : option Z).
+| CBytesToReal64 (l : list Z) (le : bool) (outbits : option Z)
+| CRealToBytes32 (bits64 : Z) (le : bool) (out : option (list Z))
+| CBytesToReal32 (l : list Z) (le : bool) (outbits64 : option Z).
 
 Definition blist_eqb := list_eqb Bool.eqb.
 
@@ -38,4 +40,6 @@ Definition ok (c : ucase) : bool :=
   | CRealToBinary64 b o => blist_eqb (real_to_binary64 (b64_of_bits b)) o
   | CBytesToReal64 l le o =>
       option_eqb Z.eqb (option_map bits_of_b64 (bytes_to_real64 l le)) o
+  | CRealToBytes32 b le o => option_eqb zlist_eqb (real_to_bytes32 b le) o
+  | CBytesToReal32 l le o => option_eqb Z.eqb (bytes_to_real32 l le) o
   end.
